@@ -142,14 +142,9 @@ def main():
     io = run_family(impl, "c17_valid", [hexs(c["schema"]) + " " + hexs(c["doc"]) for c in cases], shards=8)
     mo = run_family(model, "c17_valid", [sd[c["schema"]] + " " + dd[c["doc"]] for c in cases], shards=8)
     n = 0
-    known = {}
     seen = set()
     for c, i, m in zip(cases, io, mo):
         if m == "outside-limits" or first_word(i) == first_word(m):
-            continue
-        cls = classify_batch(model, [(c, first_word(i))], sd, dd)[0]
-        if cls and not os.environ.get("SHOW_KNOWN"):
-            known[tuple(cls)] = known.get(tuple(cls), 0) + 1
             continue
         n += 1
         key = (c["label"], i, m)
@@ -161,7 +156,6 @@ def main():
         print(g.doc_str(small) if small else c["doc"])
         if os.environ.get("SHOW_SCHEMA"):
             print(c["schema"])
-    print("known:", known)
     print("disagreements:", n, "of", len(cases))
 
 
